@@ -262,7 +262,7 @@ impl Part for TextFields {
 pub fn field_text_strategy() -> impl Strategy<Value = String> {
     let tables = cp::tables();
     let ch = prop_oneof![
-        5 => (0x20u8..0x7F).prop_filter("no caret", |b| *b != b'^').prop_map(|b| b as char),
+        5 => (0x20u8..0x7E).prop_map(|b| if b == b'^' { '~' } else { b as char }),
         3 => (0..tables.len(), any::<prop::sample::Index>()).prop_map(move |(t, ix)| {
             let e = &tables[t].entries;
             e[ix.index(e.len())].1
@@ -271,11 +271,10 @@ pub fn field_text_strategy() -> impl Strategy<Value = String> {
     prop_oneof![
         3 => proptest::collection::vec(ch.clone(), 0..12),
         1 => proptest::collection::vec(ch, 0..64),
-        2 => proptest::collection::vec((0x20u8..0x7F).prop_filter("no caret", |b| *b != b'^').prop_map(|b| b as char), 0..130),
+        2 => proptest::collection::vec((0x20u8..0x7E).prop_map(|b| if b == b'^' { '~' } else { b as char }), 0..130),
     ]
-    .prop_map(|v| v.into_iter().collect::<String>())
-    // the one-way WHATWG mappings are not part of any LFS codepage (see C10)
-    .prop_filter("outside every codepage", |s: &String| !s.contains('\u{203e}') && !s.contains('\u{2212}'))
+    // the one-way WHATWG mappings U+203E / U+2212 are not part of any LFS codepage (see C10): constructed away, not filtered
+    .prop_map(|v| v.into_iter().map(|c| if c == '\u{203e}' || c == '\u{2212}' { '\u{ff5e}' } else { c }).collect::<String>())
 }
 
 pub fn parts() -> Vec<Box<dyn DynPart>> {
